@@ -190,3 +190,35 @@ def enc_obj(o) -> str:
     if o is jp.NOTHING:
         return "nothing"
     return "(val " + wire.enc_json(o) + ")"
+
+
+def err_offset(exc) -> str:
+    tok = getattr(exc, "token", None)
+    if tok is None:
+        return "none"
+    return str(tok.index)
+
+
+def observe_lex(q: str) -> str:
+    from jsonpath_rfc9535.lex import tokenize
+
+    try:
+        toks = tokenize(q)
+    except RecursionError:
+        raise
+    except Exception as exc:  # noqa: BLE001
+        return f"err {err_name(exc)} {err_offset(exc)}"
+    return "tokens\t" + " ".join(
+        f"{t.type_.name}:{t.index}:{wire.enc_str(t.value)}" for t in toks
+    )
+
+
+def observe_compile(env, q: str):
+    """Returns (wire line, compiled-or-None)."""
+    try:
+        c = env.compile(q)
+    except RecursionError:
+        raise
+    except Exception as exc:  # noqa: BLE001
+        return f"err {err_name(exc)} {err_offset(exc)}", None
+    return "ok\t" + ast_query(c), c
